@@ -56,6 +56,18 @@ CLAIMED = {
             "bounded-exhaustive enumeration of target/usage shapes for EncapsulateField, IntroduceFactory, MethodObject, LocalToField and UseFunction with CPython execution before/after",
             "Five generated spaces (field read/write/augmented/chained/conditional/subclass uses x hosts x file endings x query point; constructor call shapes x nested/top-level class x hosts x global/static factory; 8 function/method shapes incl. nested class, closure, first/last method; every local of a method; function bodies re-occurring with other names in 1-2 places x hosts) are refactored with the real code; every performed result is compiled and every module run before/after.",
             "behaviour = stdout + exception type of importing every module; bounded shapes", "3/C17"),
+    "C01": ("exploration",
+            "bounded-exhaustive enumeration of (program from scoping schemas, identifier token) with CPython execution and a symtable-validated reference binder as oracles",
+            "Every program of 11 single-module scoping schemas (full product of two-name menus) and 57 multi-module projects x every identifier token with a statically known in-project binding is renamed to a fresh name with the real Rename; the result must compile, every module must print the same, and the reference binder's token partition before/after must be in bijection.",
+            "reference binder validated against CPython's symtable on every program (exit 2 on disagreement); tokens it cannot bind statically are not judged; dunder names are not renamed", "3/C01"),
+    "C02": ("exploration",
+            "bounded-exhaustive enumeration of (program, binding class, query token) with a symtable-validated reference binder as the two-sided oracle",
+            "For every program of the scoping schemas and every binding class of the reference binder, find_occurrences is asked at EVERY token of the class and must return exactly the class (nothing missing, nothing of another static binding, nothing inside strings/comments), and Rename.get_changes must alter exactly those tokens.",
+            "reference binder = language rules over ast + import transparency + statically known attributes/keyword arguments, validated against symtable per program; dynamic tokens are neither required nor forbidden", "3/C02"),
+    "C15": ("exploration",
+            "bounded-exhaustive enumeration of binding constructs x scope chains, rope's scopes/name tables/lookups compared with a reference binder that is validated against CPython's symtable on every program",
+            "40 binding atoms x 12 function/class nesting chains (depth 3) x outer-binding variations (uniform and independent per level) x 10 parameter kinds; per program: scope tree with line extents, owned names per scope, lookup() of every read name from its scope, holding scope per body line.",
+            "binder vs symtable agreement is a precondition (HARNESS otherwise); lambda scopes not compared; PEP 709 inlining accounted for", "3/C15"),
 }
 
 PENDING_REASON = "check not built yet in this session (see DESIGN.md section 8 build order); nothing is claimed for it"
